@@ -2,7 +2,7 @@
     Domain of every op: from >= 0, 0 <= w <= 32 (w = to-from resp. the height),
     from + w + 7 < 2^31, every byte in [0,256). *)
 From Coq Require Import ZArith List Bool String.
-From Low Require Import Lib.Bits Lib.BitSeq Lib.Bytes Lib.Val Model.BmtreePathStr Model.FromStr32 Spec.FromStr32Spec.
+From Low Require Import Lib.Bits Lib.BitSeq Lib.Bytes Lib.Val Model.BmtreePath Model.BmtreePathStr Model.FromStr32 Spec.FromStr32Spec Spec.PathsOfSortedSpec.
 Import ListNotations.
 Open Scope string_scope.
 Open Scope Z_scope.
@@ -89,5 +89,38 @@ Definition ops_C11 : list opdef := [
            | Some keys1, Some keys2, Some from, Some h, Some dd =>
                VL [vzs (spec_PathsOf keys1 from h dd); vzs (spec_PathsOf keys2 from h dd)]
            | _, _, _, _, _ => VBad end
-       | _ => VBad end) |}
+       | _ => VBad end) |};
+  (* [PathLen, PathHeight, PathBits, PathMask] of PathOf(s, from, h) *)
+  {| op_name := "bmtree.PathOf/fields";
+     op_run := fun a => match a with
+       | [s; from; h] => match as_zs s, as_z from, as_z h with
+           | Some s, Some from, Some h =>
+               if c11_dom from h && bytes_okb s then
+                 match PathOf s from h with
+                 | Some p => vzs [PathLen p; PathHeight p; PathBits p; PathMask p]
+                 | None => VPanic end
+               else VBad
+           | _, _, _ => VBad end
+       | _ => VBad end;
+     op_spec := fun_spec (fun a => match a with
+       | [s; from; h] => match as_zs s, as_z from, as_z h with
+           | Some s, Some from, Some h => vzs (spec_PathOf_fields s from h)
+           | _, _, _ => VBad end
+       | _ => VBad end) |};
+  (* PathsOf(keys, from, h, true) on keys sorted in string order that share their first
+     [from] bits: judged by the relational checker (strictly increasing, same set) *)
+  {| op_name := "bmtree.PathsOf/sorted";
+     op_run := fun a => match a with
+       | [keys; from; h] => match as_zss keys, as_z from, as_z h with
+           | Some keys, Some from, Some h =>
+               if c11_dom from h && forallb bytes_okb keys && keys_sortedb keys && same_prefixb from keys then
+                 match PathsOf keys from h true with Some ps => vzs ps | None => VPanic end
+               else VBad
+           | _, _, _ => VBad end
+       | _ => VBad end;
+     op_spec := fun a obs => match a with
+       | [keys; from; h] => match as_zss keys, as_z from, as_z h, as_zs obs with
+           | Some keys, Some from, Some h, Some ps => sorted_paths_ok keys from h ps
+           | _, _, _, _ => false end
+       | _ => false end |}
 ].
